@@ -116,7 +116,8 @@ def find_function_body(m, fn):
             continue
         close = match_paren(m, mo.end() - 1)
         j = close + 1
-        while j < len(m) and m[j] in " \t\r\n":
+        # a function defined inside a macro body has line continuations here
+        while j < len(m) and m[j] in " \t\r\n\\":
             j += 1
         if j < len(m) and m[j] == "{":
             return j, match_paren(m, j, "{", "}")
@@ -185,8 +186,15 @@ def annotate(src, loops_text, breaks=None):
                 raise
             breaks.append((e["fn"], e["ord"], str(ex)))
             continue
-        inserts.append((heads[e["ord"]],
-                        OPEN + "\n" + "\n".join(e["text"]) + "\n" + CLOSE))
+        pos = heads[e["ord"]]
+        eol = src.find("\n", pos)
+        eol = len(src) if eol < 0 else eol
+        if src[pos:eol].rstrip().endswith("\\"):
+            # loop head inside a macro body (line continuation): the insertion
+            # must stay on the same logical line
+            inserts.append((pos, OPEN + " " + " ".join(e["text"]) + " " + CLOSE))
+        else:
+            inserts.append((pos, OPEN + "\n" + "\n".join(e["text"]) + "\n" + CLOSE))
     out = src
     for p, t in sorted(inserts, key=lambda x: -x[0]):
         out = out[:p] + t + out[p:]
